@@ -5,7 +5,7 @@ import numpy as np
 from .common import guarded, run_model, rows, ints
 
 RULE = ("all integer arrays with 1..4 rows x 1..2 columns over a 3-letter alphabet (exhaustive) plus "
-        "generated arrays up to 12x4 with planted duplicates; non-trivial = the array contains at least "
+        "generated arrays up to 12x4 with planted duplicates, wide rows (31..129 columns, differing in one column anywhere) and long arrays (lengths just past 2^5..2^14 with duplicates on the power-of-two boundaries); non-trivial = the array contains at least "
         "one repeated row; distinct by array content")
 LEVEL = ("theorems dups_count / consec_spec over every list of rows; model validated against qa.py on "
          "an exhaustive small domain and generated arrays")
@@ -62,6 +62,29 @@ def gen_arrays(ctx):
         row = [ctx.rng.randint(0, 9) if w < 100 else ctx.rng.randint(10000, 99999) for _ in range(w)]
         other = list(row); other[-1] += 1
         out.append(np.array([row, other, row, row]))
+    # wide rows that differ in one column anywhere (first, middle, just outside the last 32 / 64 columns): [A, B, A]
+    for _ in range(ctx.n(30, 300)):
+        w = ctx.rng.choice([31, 32, 33, 34, 40, 63, 64, 65, 66, 100, 129])
+        row = [ctx.rng.randint(-3, 3) for _ in range(w)]
+        j = ctx.rng.choice([0, 0, 1, w // 2, max(0, w - 33), max(0, w - 32), max(0, w - 65), w - 1, ctx.rng.randrange(w)])
+        other = list(row); other[j] += ctx.rng.choice([-1, 1])
+        out.append(np.array(ctx.rng.choice([[row, other, row], [other, row, other, row], [row, other, other, row, row]])))
+    # long arrays: lengths just past powers of two, duplicates planted on and around the boundaries 2^k - 1 | 2^k
+    for _ in range(ctx.n(6, 40)):
+        k = ctx.rng.choice([5, 6, 8, 10, 12, 12, 12, 13] if ctx.rng.random() < 0.8 else [7, 9, 11])
+        r = 2 ** k * ctx.rng.choice([1, 1, 2]) + ctx.rng.choice([1, 1, 2, 5]); c = ctx.rng.randint(1, 2)
+        kind = ctx.rng.choice(["distinct", "distinct", "all-equal", "runs"])
+        if kind == "all-equal":
+            m = np.full((r, c), 7, dtype=np.int64)
+        elif kind == "runs":
+            m = np.repeat(np.arange((r + 2) // 3), 3)[:r].reshape(r, 1) * np.ones((1, c), dtype=np.int64)
+        else:
+            m = np.arange(r * c, dtype=np.int64).reshape(r, c)
+            for b in {2 ** k, 2 ** k * 2, 2 ** (k - 1)}:
+                for i in (b, b + 1) if ctx.rng.random() < 0.5 else (b,):
+                    if 0 < i < r and ctx.rng.random() < 0.8:
+                        m[i] = m[i - 1]
+        out.append(m)
     return out
 
 
@@ -107,7 +130,8 @@ def run(ctx):
             bad["array"] = snap.tolist()
             ctx.violation("oracle", bad, site="qa")
             continue
-        ops.append("dups|" + rows(snap, ints)); meta.append(("dups", snap, sorted(tuple(int(v) for v in r) for r in r1[1])))
+        if snap.shape[0] <= 600:      # the model sorts by insertion (quadratic): long arrays go through `consec` only
+            ops.append("dups|" + rows(snap, ints)); meta.append(("dups", snap, sorted(tuple(int(v) for v in r) for r in r1[1])))
         ops.append("consec|" + rows(snap, ints)); meta.append(("consec", snap, [tuple(int(v) for v in r) for r in r2[1]]))
     outs = run_model(ops)
     agree = True
